@@ -151,6 +151,15 @@ class REnum:
         return '%s::%s(%s)' % (self.ty, self.variant, ', '.join('%s=%r' % kv if not isinstance(kv[0], int) else repr(kv[1]) for kv in self.payload.items()))
 
 
+class RNoneDefault(REnum):
+    """Option::None that remembers the Default of its payload type (for unwrap_or_default)."""
+    __slots__ = ('default',)
+
+    def __init__(self, default):
+        REnum.__init__(self, 'Option', 'None')
+        self.default = default
+
+
 def some(v):
     return REnum('Option', 'Some', {0: v})
 
